@@ -162,17 +162,13 @@ def make_warmup(n, d, with_blobs):
         st._current.update({"beta": 0.0, "calls": 5, "logz": 0.0, "iter": 1})
         mut = mutate_mod.Mutator(state=st, prior_transform=cb.prior_transform, log_likelihood=cb.log_likelihood, pbar=None,
                                  n_particles=n, n_dim=d, have_blobs=with_blobs)
-        stub = RandomStub(Draws(ctx), max_calls=4)
+        stub = RandomStub(Draws(ctx), max_calls=5)  # <= 3 unsupported batches in a row are followed, then one replacement draw
         proxy = NpProxy(random=stub, overrides={"isinf": isinf_model})
         with patched(mutate_mod, np=proxy):
             mut.run(None)
         c = st._current
         n_inf = sum(1 for v in c["logl"] if isinstance(v, float))
-        if n_inf == n:
-            ctx.notes["all-infinite"] = True
-            ctx.ok("all-infinite-batch (outside the claim: nothing to copy from)")
-            return None
-        ctx.check("no-minus-inf-stored", z3.BoolVal(n_inf == 0))
+        ctx.check("no-minus-inf-stored", z3.BoolVal(n_inf == 0), detail={"stored_minus_inf": n_inf})
         if n_inf == 0:
             check_rows(ctx, cb, "rows-coherent-after-warmup", c["u"], c["x"], c["logl"], c["blobs"] if with_blobs else None, n, d)
         ctx.check("calls-count-likelihood-points", z3.BoolVal(c["calls"] == 5 + cb.n_like_points))
@@ -197,8 +193,6 @@ def make_warmup(n, d, with_blobs):
             finally:
                 np.random.set_state(s0)
             c = st.get_current()
-            if np.all(np.isinf(c["logl"])):
-                continue
             if np.any(np.isinf(c["logl"])):
                 return {"reproduced": True, "signature": "Mutator.run:warmup:-inf-stored", "payload": {"seed": trial},
                         "what": f"warm-up with seed {trial} stored a -inf particle"}
@@ -213,7 +207,7 @@ def make_warmup(n, d, with_blobs):
                       encodes=[mutate_mod.Mutator.run],
                       bounds=f"{n} fresh prior draws, d={d}, every subset of them with -inf likelihood (symbolic predicate), all replacement index choices",
                       stubs=["np.random.rand / np.random.choice -> symbolic draws", "np.isinf -> exact on the -inf marker"],
-                      theory="QF_UFLRA")
+                      theory="QF_UFLRA", allow_bound="more than 3 consecutive prior batches without a supported draw are cut")
 
 
 # ------------------------------------------------------------------ Resampler.run
